@@ -585,11 +585,28 @@ func (m *Multiplexer) Addr() net.Addr {
 // context must not be nil. The context only regulates the lifetime of the open
 // operation, not the stream itself.
 func (m *Multiplexer) OpenStream(ctx context.Context) (*Stream, error) {
-	// Create and register the local side of the stream. If we've already
-	// exhausted local stream identifiers, then we can't open a new stream.
+	// Wait for a write buffer before allocating a stream identifier. The
+	// identifier has to be allocated and the open message queued within a
+	// single critical section, because the remote requires that open messages
+	// arrive with monotonically increasing identifiers and concurrent callers
+	// could otherwise queue their open messages out of order.
+	var writeBuffer *messageBuffer
+	select {
+	case writeBuffer = <-m.writeBufferAvailable:
+	case <-ctx.Done():
+		return nil, context.Canceled
+	case <-m.closed:
+		return nil, ErrMultiplexerClosed
+	}
+
+	// Create and register the local side of the stream and queue the open
+	// message for transmission (which is guaranteed not to block). If we've
+	// already exhausted local stream identifiers, then we can't open a new
+	// stream.
 	m.streamLock.Lock()
 	if m.nextOutboundStreamIdentifier == 0 {
 		m.streamLock.Unlock()
+		m.writeBufferAvailable <- writeBuffer
 		return nil, errors.New("local stream identifiers exhausted")
 	}
 	stream := newStream(m, m.nextOutboundStreamIdentifier, m.configuration.StreamReceiveWindow)
@@ -599,29 +616,19 @@ func (m *Multiplexer) OpenStream(ctx context.Context) (*Stream, error) {
 	} else {
 		m.nextOutboundStreamIdentifier += 2
 	}
+	writeBuffer.encodeOpenMessage(stream.identifier, uint64(m.configuration.StreamReceiveWindow))
+	m.writeBufferPending <- writeBuffer
 	m.streamLock.Unlock()
 
 	// If we fail to establish the stream, then defer its closure. We can't use
 	// the stream's established channel to check this because it could be closed
 	// by the reader Goroutine after some other error aborts the opening.
-	var sentOpenMessage, established bool
+	var established bool
 	defer func() {
 		if !established {
-			stream.close(sentOpenMessage)
+			stream.close(true)
 		}
 	}()
-
-	// Write the open message and queue it for transmission.
-	select {
-	case writeBuffer := <-m.writeBufferAvailable:
-		writeBuffer.encodeOpenMessage(stream.identifier, uint64(m.configuration.StreamReceiveWindow))
-		m.writeBufferPending <- writeBuffer
-		sentOpenMessage = true
-	case <-ctx.Done():
-		return nil, context.Canceled
-	case <-m.closed:
-		return nil, ErrMultiplexerClosed
-	}
 
 	// Wait for stream acceptance or rejection.
 	select {
